@@ -210,6 +210,19 @@ def ref_fit(L):
     return Layout(origin=L.origin, extent=Stretch(Size(w, PCT), Size(h, PCT)), padding=L.padding, alignment=L.alignment)
 
 
+
+
+_LONG_LIVED = {}
+
+
+def long_lived(cls, **kw):
+    """one object per class and option set for the whole run: what a conversion returns depends on its input and the
+    options only, also when the object has converted other documents before"""
+    key = (cls, tuple(sorted(kw.items())))
+    if key not in _LONG_LIVED:
+        _LONG_LIVED[key] = cls(**kw)
+    return _LONG_LIVED[key]
+
 def bounded_dfxp_roundtrip(ctx, b):
     rng = random.Random(ctx.seed)
     n = 150 if not ctx.thorough else 3000
@@ -243,7 +256,8 @@ def bounded_dfxp_roundtrip(ctx, b):
 
         def one():
             out = DFXPWriter(relativize=rng.choice([True, False]), fit_to_screen=fit).write(cs)
-            back = DFXPReader().read(out)
+            # (the writer puts no positioning attributes on <p>: the reader option that honours them changes nothing)
+            back = DFXPReader(read_invalid_positioning=rng.choice([False, True])).read(out)
             got = [(nd.content, nd.layout_info) for cp in back.get_captions("en") for nd in cp.nodes
                    if nd.type_ == CaptionNode.TEXT]
             if [t for t, _ in got] != [t for t, _ in expect]:
@@ -286,7 +300,7 @@ def bounded_webvtt(ctx, b):
             return (not bad), (bad[0][1] if bad else None)
 
         def check_one(L0, cs, ft, relativize=True, cue=0):
-            out = WebVTTWriter(fit_to_screen=ft, relativize=relativize).write(cs)
+            out = long_lived(WebVTTWriter, fit_to_screen=ft, relativize=relativize).write(cs)
             line = [l for l in out.split("\n") if "-->" in l][cue]
             settings = line.split(" ", 3)[3] if line.count(" ") >= 3 else ""
             L = ref_fit(L0) if ft else L0
@@ -361,7 +375,7 @@ def bounded_webvtt(ctx, b):
         doc = f"WEBVTT\n\n00:01.000 --> 00:02.000 {s}\nhello\n"
 
         def one(s=s, doc=doc):
-            out = WebVTTWriter().write(WebVTTReader().read(doc))
+            out = long_lived(WebVTTWriter).write(long_lived(WebVTTReader).read(doc))
             return f"00:01.000 --> 00:02.000 {s}\n" in out, {"output": out}
         b.guard(("verbatim", s), one, sample=doc)
     # ... cue by cue: a cue without settings stays without (it falls back to the default positioning)
@@ -374,11 +388,11 @@ def bounded_webvtt(ctx, b):
 
         def mixed(doc=doc, sets=sets):
             from refs import parsers
-            caps = WebVTTReader().read(doc).get_captions("en-US")
+            caps = long_lived(WebVTTReader).read(doc).get_captions("en-US")
             read = [(c_.layout_info.webvtt_positioning if c_.layout_info else "") or "" for c_ in caps]
             if read != sets:
                 return False, {"settings_read": read, "expected": sets}
-            out = parsers.parse_webvtt(WebVTTWriter().write(WebVTTReader().read(doc)))
+            out = parsers.parse_webvtt(long_lived(WebVTTWriter).write(long_lived(WebVTTReader).read(doc)))
             got = [cu["settings"] for cu in out]
             return got == sets, {"settings_written": got, "expected": sets}
         b.guard(("verbatim-mixed", tuple(order)), mixed, sample={"settings": sets})
